@@ -343,11 +343,56 @@ fn agg_tokens(f: &AggregateFunction, alias: &str, out: &mut Vec<String>) -> Opti
     Some(())
 }
 
+/// every alias a plan can bind (over-approximation of the columns of its rows)
+fn collect_aliases(p: &Plan, out: &mut Vec<String>) {
+    let mut push = |s: &String| {
+        if !out.contains(s) {
+            out.push(s.clone())
+        }
+    };
+    match p {
+        Plan::Unwind { input, alias, .. } => {
+            push(alias);
+            collect_aliases(input, out);
+        }
+        Plan::Project { input, projections } => {
+            for (a, _) in projections {
+                push(a);
+            }
+            collect_aliases(input, out);
+        }
+        Plan::Aggregate { input, group_by, aggregates } => {
+            for g in group_by {
+                push(g);
+            }
+            for (_, a) in aggregates {
+                push(a);
+            }
+            collect_aliases(input, out);
+        }
+        Plan::Filter { input, .. }
+        | Plan::Distinct { input }
+        | Plan::Skip { input, .. }
+        | Plan::Limit { input, .. }
+        | Plan::OrderBy { input, .. } => collect_aliases(input, out),
+        Plan::Union { left, right, .. } | Plan::CartesianProduct { left, right } => {
+            collect_aliases(left, out);
+            collect_aliases(right, out);
+        }
+        Plan::Apply { input, subquery, .. } => {
+            collect_aliases(input, out);
+            collect_aliases(subquery, out);
+        }
+        _ => {}
+    }
+}
+
 /// structural translation of the engine's plan; `None` = outside the model's fragment
 fn plan_tokens(p: &Plan, out: &mut Vec<String>) -> Option<()> {
     match p {
         Plan::ReturnOne => out.push("one".into()),
-        Plan::Values { rows } if rows.len() == 1 && rows[0].columns().is_empty() => out.push("arg".into()),
+        // the leaf of an EXISTS subquery: the outer row (column values are placeholders here)
+        Plan::Values { rows } if rows.len() == 1 => out.push("arg".into()),
         Plan::Unwind { input, expression, alias } if ident_ok(alias) => {
             out.push("unwind".into());
             out.push(alias.clone());
@@ -357,7 +402,9 @@ fn plan_tokens(p: &Plan, out: &mut Vec<String>) -> Option<()> {
         Plan::Filter { input, predicate } => match predicate {
             Expression::Exists(ex) => match ex.as_ref() {
                 ExistsExpression::Subquery(q) => {
-                    let sub = nervusdb_query::query_api::verif_compile_exists_subquery(q).ok()?;
+                    let mut cols = Vec::new();
+                    collect_aliases(input, &mut cols);
+                    let sub = nervusdb_query::query_api::verif_compile_exists_subquery(q, &cols).ok()?;
                     out.push("exists".into());
                     plan_tokens(&sub, out)?;
                     plan_tokens(input, out)?;
@@ -592,11 +639,15 @@ struct QGen<'a> {
     next: usize,
     /// how long generated lists / ranges may get
     size: i64,
+    /// smallest LIMIT argument (C33 lines avoid `LIMIT 0`: a blocking operator that was drained when
+    /// the iterator tree was built but is never asked for a row keeps its limit error to itself,
+    /// which the count-based prediction of the row budget does not follow)
+    min_limit: i64,
 }
 
 impl<'a> QGen<'a> {
     fn new(rng: &'a mut Rng, size: i64) -> Self {
-        QGen { rng, vars: vec![], next: 0, size }
+        QGen { rng, vars: vec![], next: 0, size, min_limit: 0 }
     }
     fn fresh(&mut self) -> String {
         self.next += 1;
@@ -680,7 +731,7 @@ impl<'a> QGen<'a> {
             s += &format!(" SKIP {}", self.rng.range(0, 3));
         }
         if self.rng.chance(1, 3) {
-            s += &format!(" LIMIT {}", self.rng.range(0, 4));
+            s += &format!(" LIMIT {}", self.rng.range(self.min_limit, 4));
         }
         s
     }
@@ -951,7 +1002,7 @@ fn large_query(rng: &mut Rng) -> String {
         2 => format!("RETURN a % {} AS k, count(*) AS c", rng.range(2, 9)),
         3 => "RETURN count(*) AS c".to_string(),
         4 => "RETURN collect(a) AS l".to_string(),
-        5 => format!("RETURN a AS a ORDER BY a DESC LIMIT {}", rng.range(0, 5)),
+        5 => format!("RETURN a AS a ORDER BY a DESC LIMIT {}", rng.range(1, 5)),
         6 => format!("RETURN a AS a SKIP {}", rng.range(0, 40)),
         7 if has_b => "RETURN a AS a, b AS b".to_string(),
         7 => format!("RETURN a AS a LIMIT {}", rng.range(0, 9)),
@@ -976,7 +1027,13 @@ fn generate_c33(rng: &mut Rng, n: usize, tier: &str, out: &mut dyn Write) {
         if made % 50 == 0 {
             writeln!(out, "#case random-{}", made / 50).unwrap();
         }
-        let cy = if rng.chance(1, 2) { large_query(rng) } else { QGen::new(rng, 12).query() };
+        let cy = if rng.chance(1, 2) {
+            large_query(rng)
+        } else {
+            let mut g = QGen::new(rng, 12);
+            g.min_limit = 1;
+            g.query()
+        };
         if model_plan(&cy).is_none() {
             continue;
         }
